@@ -1,6 +1,7 @@
 package main
 
 import (
+	"go/types"
 	"regexp"
 	"encoding/json"
 	"fmt"
@@ -54,7 +55,7 @@ func loadBaseline(verifDir string) Baseline {
 func funcsForProp(p *Prog, prop string) []string {
 	var out []string
 	for name, fs := range p.specs.Funcs {
-		if fs.Trusted {
+		if fs.Trusted || isAssumedContract(p, name) {
 			continue
 		}
 		if specMentions(p, fs, prop) {
@@ -765,4 +766,34 @@ func proveLemma(p *Prog, lm *Lemma) verifyResult {
 	res.Obls = []*Obligation{o}
 	res.Paths, res.RetPaths = 1, 1
 	return res
+}
+
+// isAssumedContract: contracts on interface methods, function-typed fields, slice elements and
+// captured variables have no body to verify; they are assumptions about the environment
+// (valid configuration), listed in the evidence.
+func isAssumedContract(p *Prog, name string) bool {
+	if _, ok := p.fns[name]; ok {
+		return false
+	}
+	if strings.Contains(name, ":") {
+		return true
+	}
+	if _, ok := p.ifaceMethods[name]; ok {
+		return true
+	}
+	if i := strings.LastIndex(name, "."); i > 0 {
+		if nt, ok := p.named[name[:i]]; ok {
+			if st, ok := nt.Underlying().(*types.Struct); ok {
+				for j := 0; j < st.NumFields(); j++ {
+					if st.Field(j).Name() == name[i+1:] {
+						return true
+					}
+				}
+			}
+			if _, ok := nt.Underlying().(*types.Interface); ok {
+				return true
+			}
+		}
+	}
+	return false
 }
